@@ -16,14 +16,14 @@
 /* a visit function stops a traversal with "a non-zero value": any of them, which the traversal must hand back unchanged */
 static const int stopvals[12] = { -3, -2, -1, 11, 1, 2, 3, 256, 65536, -65536, INT_MIN, INT_MAX };
 
-enum { T_INSERT = 1, T_FIND, T_ERASE, T_FOREACH, T_CLEAR, T_SWAP, T_HEIGHT, T_HUGE };
+enum { T_INSERT = 1, T_FIND, T_ERASE, T_FOREACH, T_CLEAR, T_SWAP, T_HEIGHT, T_HUGE, T_CHURN };
 
 static const char *t_opname(int k)
 {
     switch (k) {
     case T_INSERT: return "insert"; case T_FIND: return "find"; case T_ERASE: return "erase";
     case T_FOREACH: return "foreach"; case T_CLEAR: return "clear"; case T_SWAP: return "swap";
-    case T_HEIGHT: return "height"; case T_HUGE: return "huge";
+    case T_HEIGHT: return "height"; case T_HUGE: return "huge"; case T_CHURN: return "churn";
     }
     return "?";
 }
@@ -553,6 +553,26 @@ static void t_exec(const plan_t *p)
         g_cur_prop = prop_of(t); g_cur_ctx = ctx_of(t);
         e = NULL; ret = NULL; par = NULL;
         if (o->kind == T_HUGE) { huge_tree(o->a[1], o->a[2]); continue; }
+        if (o->kind == T_CHURN) {
+            /* the n-th repetition: a transient element with a key of its own is inserted and erased 254 ... 65 536 times */
+            static const unsigned reps[] = { 254, 255, 256, 65534, 65535, 65536 };
+            static struct telem tr; unsigned n = reps[o->a[2] % 6], q; void *got = NULL;
+            tr.magic = MAGIC; tr.tail = ~MAGIC; tr.id = -7; tr.key = keys + 3 + (int)(o->a[3] & 1) * 4; tr.tree = t;    /* beyond every key in use */
+            g_cur_ctx = n > 60000 ? "churn-2^16" : "churn-2^8";
+            g_inlib = 1;
+            for (q = 0; q < n; q++) {
+                if (is_rb(t)) { cstl_rbtree_insert(&rb[t - 2], HND(&tr), NULL); got = cstl_rbtree_erase(&rb[t - 2], HND(&tr)); }
+                else { cstl_bintree_insert(BT(t), HND(&tr), NULL); got = cstl_bintree_erase(BT(t), HND(&tr)); }
+                if (got != HND(&tr)) break;
+            }
+            g_inlib = 0;
+            if (q != n) VIOL(t, "churn", "repetition %u of insert/erase of a transient element returned another element", q);
+            PROBE(n > 60000 ? "churn_2^16" : "churn_2^8");
+            EVT("churn", t, n, 0);
+            g_cur_ctx = ctx_of(t);
+            audit_tree(t);
+            continue;
+        }
 
         switch (o->kind) {
         case T_INSERT: {
@@ -812,6 +832,7 @@ static void t_gen(prng_t *r, int mode, plan_t *p)
         if (x < 42) kind = T_INSERT; else if (x < 54) kind = T_FIND; else if (x < 82) kind = T_ERASE;
         else if (x < 92) kind = T_FOREACH; else if (x < 96) kind = T_SWAP; else if (x < 100) kind = T_HEIGHT;
         else kind = T_CLEAR;
+        if (kind == T_HEIGHT && prng_chance(r, 1, 40)) kind = T_CHURN;
         o = plan_add(p, kind);
         o->a[0] = prng_below(r, 4);
         if (kind == T_INSERT && stream >= 2 && stream <= 4) {
